@@ -98,9 +98,9 @@ Section Codec.
   (* compress/zlib: Writer at a level (Reset; Write p; Close) and Reader *)
   Variable deflate : Z -> bytes -> bytes.
   Variable inflate : bytes -> zres.
-  (* decompress() stops after `claimed` bytes and calls Close(): on a stream that is not clean, whether
-     Close still reports the breakage depends on how far compress/flate had decoded. Abstract bit:
-     true = no error surfaced. Only consulted when the stream is not clean and yields >= claimed bytes. *)
+  (* PRE-FIX code only: decompress() stopped after `claimed` bytes and called Close(): on a stream that is not
+     clean, whether Close still reported the breakage depended on how far compress/flate had decoded.
+     Abstract bit: true = no error surfaced. Today's code never consults it. *)
   Variable lazy_close_ok : bytes -> N -> bool.
   (* first byte of the AES block encryption of the 16-byte shift register (only that byte is used) *)
   Variable E : bytes -> bytes.
@@ -147,9 +147,10 @@ Section Codec.
 
   (* ---------- decoder on the available plaintext bytes: decoder.go ---------- *)
 
-  (* Decoder.decompress after the size checks.  fix2 = false is today's code: io.ReadFull of exactly
-     `claimed` bytes, then Close, never reading to EOF.  fix2 = true demands a clean stream of exactly
-     `claimed` bytes (what the property states). *)
+  (* Decoder.decompress after the size checks.  fix2 = true is today's code (commit 9119697): after the
+     `claimed` bytes one more byte is read and must be EOF, so the stream has to be a clean zlib stream of exactly
+     `claimed` bytes.  fix2 = false is the PRE-FIX code: io.ReadFull of exactly `claimed` bytes, then Close,
+     never reading to EOF. *)
   Definition inflate_claimed (fix2 : bool) (zb : bytes) (claimed : N) : option bytes :=
     let r := inflate zb in
     if fix2 then
@@ -160,7 +161,8 @@ Section Codec.
       else None.
 
   (* Decoder.readPayload on the frame body (compression enabled, threshold t >= 0).
-     fix1 = false is today's code: `claimed <= 0` takes the not-compressed branch.
+     fix1 = true is today's code (commit 7de81ff): a negative claimed size is an error.
+     fix1 = false is the PRE-FIX code: `claimed <= 0` takes the not-compressed branch.
      Returns the allocation made for inflating (make([]byte, claimed)) and the payload or error. *)
   Definition payload_of (fix1 fix2 : bool) (c : cfg) (body : bytes) : list N * (bytes + ferr) :=
     if (c_thr c <? 0)%Z then ([], inl body)
@@ -202,9 +204,12 @@ Section Codec.
           end
     end.
 
-  Definition impl_decode_frame : cfg -> bytes -> list N * fres := decode_frame_with read_varint false false.
-  (* the code with both repairs (fixes/C02-1.diff, fixes/C02-2.diff) *)
-  Definition fixed_decode_frame : cfg -> bytes -> list N * fres := decode_frame_with read_varint true true.
+  (* today's decoder.go (both repairs are in: commits 7de81ff "reject compressed frames with a negative claimed
+     uncompressed size" and 9119697 "reject compressed bodies that inflate to more than the claimed size") *)
+  Definition impl_decode_frame : cfg -> bytes -> list N * fres := decode_frame_with read_varint true true.
+  (* PRE-FIX variant: decoder.go before those two commits (claimed <= 0 taken as "not compressed"; ReadFull of
+     exactly `claimed` bytes then Close, never reading to EOF).  Kept only to state what was wrong. *)
+  Definition prefix_decode_frame : cfg -> bytes -> list N * fres := decode_frame_with read_varint false false.
   (* reference written from the property statement / Velocity's MinecraftVarintFrameDecoder + MinecraftCompressDecoder *)
   Definition velocity_decode_frame : cfg -> bytes -> list N * fres := decode_frame_with read_varint21 true true.
 
@@ -289,13 +294,13 @@ Section Codec.
     | VTooBig => true
     end.
 
-  (* q holds in front of every frame the repaired decoder walks over (fuel: one per frame) *)
+  (* q holds in front of every frame the decoder walks over (fuel: one per frame) *)
   Fixpoint walk_all (fuel : nat) (q : bytes -> bool) (c : cfg) (s : bytes) : bool :=
     match fuel with
     | O => true
     | S fuel' =>
       q s &&
-      match snd (fixed_decode_frame c s) with
+      match snd (impl_decode_frame c s) with
       | FOk _ rest => match s with [] => true | _ => walk_all fuel' q c rest end
       | _ => true
       end
@@ -312,7 +317,7 @@ Section Codec.
     | _, _ => false
     end.
 
-  (* inputs of the two recorded findings, at frame level: the frame is complete and well-sized and
+  (* inputs of the two findings that were repaired (known_findings.jsonl: C02-1, C02-2, kind "fixed"), at frame level: the frame is complete and well-sized and
      (1) claims a negative size with a body that fits the threshold, or
      (2) claims a size within [threshold, cap] that the body's inflation does not meet exactly although it
          yields at least that many bytes and Close stays silent *)
@@ -350,7 +355,7 @@ Section Codec.
     | None => false
     end.
 
-  (* no frame of the stream is an input of one of the two recorded findings *)
+  (* no frame of the stream is an input of one of the two repaired findings *)
   Definition untriggered_stream (c : cfg) (s : bytes) : bool :=
     walk_all (S (length s)) (fun s' => negb (trigger1 c s') && negb (trigger2 c s')) c s.
 
@@ -408,7 +413,7 @@ Section Codec.
 
   Inductive rres := ROk (payload : bytes) (r : reader) | RErr (e : ferr) | RNeedMore.
 
-  (* readVarIntFrame + readPayload over the reader (today's code: fix flags false) *)
+  (* readVarIntFrame + readPayload over the reader (today's code: both fix flags true) *)
   Definition rd_frame (fix1 fix2 : bool) (c : cfg) (r : reader) : rres :=
     match rd_varint r with
     | RShort => RNeedMore
@@ -459,7 +464,7 @@ Section Codec.
   (* C01's reader: ReadPacket until the stream is exhausted, over chunked (optionally encrypted) input.
      Fuel = number of stream bytes + 1. *)
   Definition decode_stream (c : cfg) (enc : option bytes) (chunks : list bytes) : list bytes * term :=
-    rd_stream_fuel false false (S (length (concat chunks))) c (mkrd chunks enc).
+    rd_stream_fuel true true (S (length (concat chunks))) c (mkrd chunks enc).
 
 End Codec.
 
